@@ -377,28 +377,75 @@ func (c *canon) poly(pl *Poly, rename map[string]string) string {
 func (c *canon) path(p *Path, rename map[string]string) string {
 	var sb strings.Builder
 	ci := 0
-	emitCond := func(cd Cond) {
+	condStr := func(cd Cond) string {
 		r := cd.Rel()
 		if pl, kind, ok := r.IntNorm(); ok {
 			// integer comparisons in polynomial normal form: n <= 0 and n < 1 coincide
-			fmt.Fprintf(&sb, "[%s %s 0]", c.poly(pl, rename), kind)
-			return
+			return fmt.Sprintf("[%s %s 0]", c.poly(pl, rename), kind)
 		}
 		if r.B != nil {
 			a, b := c.term(r.A, rename), c.term(r.B, rename)
 			if (r.Op == "==" || r.Op == "!=") && b < a {
 				a, b = b, a
 			}
-			fmt.Fprintf(&sb, "[%s %s %s]", a, r.Op, b)
-		} else {
-			fmt.Fprintf(&sb, "[%s %s]", r.Op, c.term(r.A, rename))
+			return fmt.Sprintf("[%s %s %s]", a, r.Op, b)
 		}
+		return fmt.Sprintf("[%s %s]", r.Op, c.term(r.A, rename))
 	}
+	// Tests that follow one another with no effect in between are a conjunction: their order is immaterial (a test that
+	// could panic where it stands is rule guard-precedes-use's business), and an integer test that the others of the
+	// group imply adds nothing (n >= 0 beside n > 0). They are rendered as a sorted set without the implied ones, so
+	// that swapping two exclusive case clauses does not change the summary.
+	var group []Cond
+	flush := func() {
+		if len(group) == 0 {
+			return
+		}
+		var strs []string
+		for i, cd := range group {
+			implied := false
+			if pl, kind, ok := cd.Rel().IntNorm(); ok && kind == ">" {
+				var others []Cond
+				for j, o := range group {
+					if j == i {
+						continue
+					}
+					// an equal test is kept once (the later one goes)
+					if opl, okind, ook := o.Rel().IntNorm(); ook && okind == ">" && opl.Equal(pl) {
+						if j < i {
+							implied = true
+						}
+						continue
+					}
+					others = append(others, o)
+				}
+				if !implied && len(others) > 0 {
+					f := lgCollect(others)
+					f.gt = append([]*Poly{}, f.gt...)
+					for _, q := range f.gt {
+						if k, isC := pl.Add(q, -1).IsConst(); isC && k >= 0 {
+							implied = true
+						}
+					}
+				}
+			}
+			if !implied {
+				strs = append(strs, condStr(cd))
+			}
+		}
+		sort.Strings(strs)
+		for _, x := range strs {
+			sb.WriteString(x)
+		}
+		group = group[:0]
+	}
+	emitCond := func(cd Cond) { group = append(group, cd) }
 	for i, e := range p.Events {
 		for ci < len(p.Conds) && p.Conds[ci].NEv <= i {
 			emitCond(p.Conds[ci])
 			ci++
 		}
+		flush()
 		switch e.Kind {
 		case "store":
 			fmt.Fprintf(&sb, "ST(%s<-%s)", c.term(e.Addr, rename), c.term(e.Val, rename))
@@ -426,6 +473,7 @@ func (c *canon) path(p *Path, rename map[string]string) string {
 	for ; ci < len(p.Conds); ci++ {
 		emitCond(p.Conds[ci])
 	}
+	flush()
 	// the values the loop variables had when each loop was entered (a counter started at 1 is not one started at 0)
 	{
 		var ins []string
@@ -477,12 +525,25 @@ func canonPathsOpt(an *Analysis, fn *ssa.Function, rename map[string]string, dis
 	if fp.Unproven != "" {
 		return nil, fp.Unproven
 	}
+	// Sites (allocations, loop variables) are numbered by first appearance. To make the numbering independent of the
+	// order in which the CFG happens to be walked (two exclusive case clauses may change places), each path is first
+	// rendered with a numbering of its own; the paths are put in the order of those renderings; and the function-wide
+	// numbering is then assigned by first appearance over that order.
+	type lp struct {
+		local string
+		p     *Path
+	}
+	var lps []lp
+	for _, p := range fp.Paths {
+		lc := &canon{sites: map[string]int{}}
+		lps = append(lps, lp{lc.path(p, rename), p})
+	}
+	sort.SliceStable(lps, func(i, j int) bool { return lps[i].local < lps[j].local })
 	c := &canon{sites: map[string]int{}}
 	var out []string
-	for _, p := range fp.Paths {
-		out = append(out, c.path(p, rename))
+	for _, x := range lps {
+		out = append(out, c.path(x.p, rename))
 	}
-	// site numbering is by first appearance over the DFS order; sorting afterwards keeps it stable
 	sort.Strings(out)
 	return out, ""
 }
